@@ -143,6 +143,11 @@ def build(ctx):
         hints += tv.small_hints(h)
         for k in range(3):
             hints += tv.small_hints(at(h, k)) + [is_scalar(at(h, k))]
+    # counterexample search only: on the scalar elements the hints ask for, EQ is the scalar specification (keeps models replayable)
+    for (u, v) in ((x, y), (y, x), (y, z), (x, z), (x, x), (y, y)):
+        for k in range(3):
+            hints.append(EQ(at(u, k), at(v, k)) == SEQ(at(u, k), at(v, k)))
+        hints.append(Implies(And(is_seq(u), is_seq(v)), tv.PYEQC(u, v) == PYEQ_unf(u, v)))
     ctx.default_meta = dict(search_hints=hints)
     ih = IH_quantified()
     EXCL = ['np.ndarray branch (veq): numpy arrays are outside the deductive universe; bounded stand-in only',
